@@ -28,11 +28,11 @@ uint32_t nondet_u32(void);
 
 /* ---- ghost ---- */
 uint8_t *g_store;              /* the reader's backing store (32 KiB)            */
-int g_read_calls, g_read_err;  /* file reads in this call / one of them failed   */
+unsigned long g_read_calls, g_read_err;  /* file reads / failed file reads (counters)   */
 uint64_t g_file_left;          /* bytes the file still holds (arbitrary, finite) */
-int g_reports;                 /* corruption reports                             */
+unsigned long g_reports;       /* corruption reports (counter)                   */
 size_t g_rep_bytes; int g_rep_status;
-int g_crc_calls, g_crc_match;  /* crc evaluations / last one matched             */
+unsigned long g_crc_calls; int g_crc_match;  /* crc evaluations (counter) / last one matched */
 const uint8_t *g_crc_p; size_t g_crc_n;
 
 /* tracker of logical records, fed by crc-accepted physical records */
@@ -40,6 +40,7 @@ int g_in_chain;                /* a FIRST was accepted and not yet ended        
 size_t g_chain_len;            /* payload bytes of the chain so far              */
 size_t g_j;                    /* arbitrary ghost index (fixed by the harness)   */
 uint8_t g_chain_byte;          /* byte g_j of the chain, if seen                 */
+unsigned g_last_type;           /* type byte of the last accepted physical record */
 int g_complete;                /* a logical record was completed by the last accepted fragment */
 size_t g_complete_len; uint8_t g_complete_byte; const uint8_t *g_full_ptr;
 
@@ -51,7 +52,7 @@ int ldb_rfile_read(ldb_rfile_t *file, ldb_slice_t *result, void *buf, size_t cou
   g_read_calls++;
   if (rc != LDB_OK) {
     __CPROVER_assume(rc > 0);
-    g_read_err = 1;
+    g_read_err++;
     k = nondet_size();
     __CPROVER_assume(k <= count && k <= g_file_left);
     g_file_left -= k;
@@ -91,6 +92,7 @@ uint32_t ldb_crc32c_extend(uint32_t z, const uint8_t *xp, size_t xn) {
     /* accepted physical record: feed the tracker */
     unsigned type = xp[0];
     const uint8_t *pay = xp + 1; size_t len = xn - 1;
+    g_last_type = type;
     if (type == LDB_TYPE_FULL) {
       g_in_chain = 0; g_complete = 1; g_complete_len = len; g_full_ptr = pay;
       if (g_j < len) g_complete_byte = pay[g_j];
@@ -127,14 +129,20 @@ void ldb_buffer_append(ldb_buffer_t *z, const uint8_t *xp, size_t xn) {
   z->data = g_scratch_obj; z->size += xn;
 }
 
+/* sprintf is used only to format a reason string that is then discarded */
+int sprintf(char *str, const char *format, ...) { return nondet_int(); }
+
 #include "log_reader.c"
 
 /* representation invariant of the reader (file path, lr->src == NULL) */
 #define LR_RI(lr) ((lr)->file == &g_rfile && (lr)->src == NULL && (lr)->backing_store == g_store && \
   ((lr)->eof == 0 || (lr)->eof == 1) && (lr)->buffer.size <= LDB_BLOCK_SIZE && \
-  ((lr)->buffer.size == 0 || (__CPROVER_same_object((lr)->buffer.data, g_store) && \
-     (lr)->buffer.data >= g_store && (lr)->buffer.data + (lr)->buffer.size <= g_store + LDB_BLOCK_SIZE)) && \
   (lr)->end_offset >= (lr)->buffer.size && \
+  /* block alignment: the file is consumed in whole 32 KiB blocks until a short read ends it, and the \
+     unconsumed window sits in the backing store at its offset within the current block */ \
+  ((lr)->eof == 1 || (lr)->end_offset % LDB_BLOCK_SIZE == 0) && \
+  ((lr)->buffer.size == 0 || ((lr)->buffer.data == g_store + ((lr)->end_offset - (lr)->buffer.size) % LDB_BLOCK_SIZE && \
+                              ((lr)->end_offset - (lr)->buffer.size) % LDB_BLOCK_SIZE + (lr)->buffer.size <= LDB_BLOCK_SIZE)) && \
   /* bytes read so far + bytes the file still holds stay below 2^62 (no offset arithmetic can wrap) */ \
   g_file_left <= ((uint64_t)1 << 62) && (lr)->end_offset <= ((uint64_t)1 << 62) - g_file_left)
 
@@ -151,11 +159,12 @@ static void setup_reader(ldb_reader_t *lr, int checksum) {
   lr->reporter = nondet_int() ? &g_reporter : NULL;
   lr->checksum = checksum;
   lr->backing_store = g_store;
-  __CPROVER_assume(in_bufsize <= LDB_BLOCK_SIZE && in_bufoff <= LDB_BLOCK_SIZE - in_bufsize);
-  lr->buffer.data = in_bufsize ? g_store + in_bufoff : NULL; lr->buffer.size = in_bufsize; lr->buffer.alloc = 0;
   lr->eof = nondet_int() ? 1 : 0;
-  __CPROVER_assume(lr->end_offset >= lr->buffer.size);
   __CPROVER_assume(g_file_left <= ((uint64_t)1 << 62) && lr->end_offset <= ((uint64_t)1 << 62) - g_file_left);
+  __CPROVER_assume(in_bufsize <= LDB_BLOCK_SIZE && lr->end_offset >= in_bufsize);
+  __CPROVER_assume(lr->eof == 1 || lr->end_offset % LDB_BLOCK_SIZE == 0);
+  __CPROVER_assume(in_bufoff == (lr->end_offset - in_bufsize) % LDB_BLOCK_SIZE && in_bufoff + in_bufsize <= LDB_BLOCK_SIZE);
+  lr->buffer.data = in_bufsize ? g_store + in_bufoff : NULL; lr->buffer.size = in_bufsize; lr->buffer.alloc = 0;
   g_read_calls = 0; g_read_err = 0; g_reports = 0; g_crc_calls = 0; g_crc_match = 0;
   g_in_chain = 0; g_chain_len = 0; g_complete = 0;
 }
@@ -165,41 +174,76 @@ static void setup_reader(ldb_reader_t *lr, int checksum) {
 #define RET_BAD (LDB_MAX_RECTYPE + 2)
 #define PHYS_ASSIGNS lr->buffer, lr->eof, lr->end_offset, *result, \
                   g_read_calls, g_read_err, g_file_left, g_reports, g_rep_bytes, g_rep_status, g_crc_calls, g_crc_match, g_crc_p, g_crc_n, \
-                  g_in_chain, g_chain_len, g_chain_byte, g_complete, g_complete_len, g_complete_byte, g_full_ptr
+                  g_in_chain, g_chain_len, g_chain_byte, g_complete, g_complete_len, g_complete_byte, g_full_ptr, g_last_type
 /* the returned fragment lies inside the block buffer, right before what remains of it, and is what its header says */
 #define FRAG_OK(lr, result, ret) \
    ((result)->size <= LDB_BLOCK_SIZE - LDB_HEADER_SIZE && __CPROVER_same_object((result)->data, g_store) && (result)->data >= g_store + LDB_HEADER_SIZE && \
-    (result)->data + (result)->size <= g_store + LDB_BLOCK_SIZE && \
+    (size_t)((result)->data - g_store) + (result)->size <= LDB_BLOCK_SIZE && \
     ((lr)->buffer.size == 0 || (lr)->buffer.data == (result)->data + (result)->size) && \
     (ret) == (result)->data[-1] && (result)->size == ((size_t)(result)->data[-3] | ((size_t)(result)->data[-2] << 8)))
 #define ACCEPTED (g_crc_calls == 1 && g_crc_match)
+
+/* per-call deltas of the ghost counters */
+#define D_REPORTS (g_reports - __CPROVER_old(g_reports))
+#define D_READS   (g_read_calls - __CPROVER_old(g_read_calls))
+#define D_RDERR   (g_read_err - __CPROVER_old(g_read_err))
+#define D_CRC     (g_crc_calls - __CPROVER_old(g_crc_calls))
+#undef ACCEPTED
+#define ACCEPTED (D_CRC == 1 && g_crc_match)
+#define MISMATCH (D_CRC == 1 && !g_crc_match)
+#define RD(result, i) ((result)->data[i])
 
 /* recovery configuration: checksums on, initial_offset 0 */
 unsigned int c_read_physical_record(ldb_reader_t *lr, ldb_slice_t *result)
 __CPROVER_requires(__CPROVER_rw_ok(lr, sizeof(*lr)) && __CPROVER_w_ok(result, sizeof(*result)))
 __CPROVER_requires(LR_RI(lr) && lr->checksum == 1 && lr->initial_offset == 0 && lr->error == LDB_OK)
 __CPROVER_requires(lr->reporter == NULL || (lr->reporter == &g_reporter))
-__CPROVER_requires(g_reports == 0 && g_read_calls == 0 && g_read_err == 0 && g_crc_calls == 0)
 __CPROVER_assigns(PHYS_ASSIGNS)
+/* re-bind the pointers this call assigns to the backing store (dfcc loses points-to sets of replaced calls otherwise) */
+__CPROVER_ensures(!ACCEPTED || __CPROVER_pointer_in_range_dfcc(g_store, result->data, g_store + LDB_BLOCK_SIZE))
 __CPROVER_ensures(LR_RI(lr))
+__CPROVER_ensures(D_CRC <= 1 && D_REPORTS <= 1 && D_READS <= 1 && D_RDERR <= D_READS)
 /* a fragment is returned iff it passed exactly one crc comparison over type ‖ payload, and it is the one under that crc */
 __CPROVER_ensures(ACCEPTED ==> (FRAG_OK(lr, result, __CPROVER_return_value) && g_crc_p == result->data - 1 && g_crc_n == result->size + 1))
 __CPROVER_ensures(!ACCEPTED ==> (__CPROVER_return_value == RET_EOF || __CPROVER_return_value == RET_BAD))
-__CPROVER_ensures(g_crc_calls <= 1)
 /* at most one drop is reported per call, and only for: a failed read, a checksum mismatch, or a bad length when NOT at end of file */
-__CPROVER_ensures(g_reports <= 1 && (ACCEPTED ==> g_reports == 0))
-__CPROVER_ensures(g_reports == 1 ==> (g_read_err || (g_crc_calls == 1 && !g_crc_match) || lr->eof == 0))
+__CPROVER_ensures(ACCEPTED ==> D_REPORTS == 0)
+__CPROVER_ensures(D_REPORTS == 1 ==> (D_RDERR == 1 || MISMATCH || lr->eof == 0))
 /* a torn header or payload at end of file is EOF, silently; EOF only at end of file */
-__CPROVER_ensures((!ACCEPTED && __CPROVER_return_value == RET_EOF && !g_read_err) ==> (g_reports == 0 && lr->eof == 1 && lr->buffer.size == 0))
-__CPROVER_ensures(g_read_err ==> (__CPROVER_return_value == RET_EOF && lr->eof == 1 && lr->buffer.size == 0))
+__CPROVER_ensures((!ACCEPTED && __CPROVER_return_value == RET_EOF && D_RDERR == 0) ==> (D_REPORTS == 0 && lr->eof == 1 && lr->buffer.size == 0))
+__CPROVER_ensures(D_RDERR == 1 ==> (__CPROVER_return_value == RET_EOF && lr->eof == 1 && lr->buffer.size == 0))
 /* damage: the rest of the block is dropped, and the drop is reported to a listening reporter */
-__CPROVER_ensures((g_crc_calls == 1 && !g_crc_match) ==> (__CPROVER_return_value == RET_BAD && lr->buffer.size == 0 && (lr->reporter == NULL || g_reports == 1)))
-__CPROVER_ensures(g_reports == 1 ==> lr->buffer.size == 0)
-__CPROVER_ensures((g_reports == 1 && !g_read_err) ==> (__CPROVER_return_value == RET_BAD && g_rep_bytes <= LDB_BLOCK_SIZE && g_rep_bytes >= 1 && g_rep_status == LDB_CORRUPTION))
-/* a non-final bad length is reported to a listening reporter */
-__CPROVER_ensures((!ACCEPTED && g_crc_calls == 0 && __CPROVER_return_value == RET_BAD && lr->eof == 0 && g_reports == 0) ==> (lr->reporter == NULL || lr->buffer.size == 0))
+__CPROVER_ensures(MISMATCH ==> (__CPROVER_return_value == RET_BAD && lr->buffer.size == 0 && (lr->reporter == NULL || D_REPORTS == 1)))
+__CPROVER_ensures(D_REPORTS == 1 ==> lr->buffer.size == 0)
+__CPROVER_ensures((D_REPORTS == 1 && D_RDERR == 0) ==> (__CPROVER_return_value == RET_BAD && g_rep_bytes <= LDB_BLOCK_SIZE && g_rep_bytes >= 1 && g_rep_status == LDB_CORRUPTION))
+/* a non-final bad length drops the block and is reported to a listening reporter */
+__CPROVER_ensures((!ACCEPTED && D_CRC == 0 && __CPROVER_return_value == RET_BAD && lr->eof == 0 && D_REPORTS == 0) ==> (lr->reporter == NULL || lr->buffer.size == 0))
 /* the file is read in whole blocks, at most once per call, never after a short read */
-__CPROVER_ensures(g_read_calls <= 1 && (__CPROVER_old(lr->eof) ==> g_read_calls == 0))
+__CPROVER_ensures(__CPROVER_old(lr->eof) ==> D_READS == 0)
+/* progress: every call that does not end the stream consumes input (termination measure of the record loop) */
+__CPROVER_ensures(__CPROVER_return_value != RET_EOF ==> g_file_left + lr->buffer.size < __CPROVER_old(g_file_left) + __CPROVER_old(lr->buffer.size))
+__CPROVER_ensures(g_file_left + lr->buffer.size <= __CPROVER_old(g_file_left) + __CPROVER_old(lr->buffer.size))
+/* file position: the consumed prefix only grows, and an accepted fragment lies wholly inside it */
+__CPROVER_ensures(lr->end_offset - lr->buffer.size >= __CPROVER_old(lr->end_offset) - __CPROVER_old(lr->buffer.size))
+__CPROVER_ensures(ACCEPTED ==> lr->end_offset - lr->buffer.size >= LDB_HEADER_SIZE + result->size)
+/* ---- transition of the logical-record tracker (what the reader above is allowed to assemble) ---- */
+__CPROVER_ensures(D_CRC == 0 ==> (g_in_chain == __CPROVER_old(g_in_chain) && g_chain_len == __CPROVER_old(g_chain_len) && g_chain_byte == __CPROVER_old(g_chain_byte) &&
+   g_complete == __CPROVER_old(g_complete) && g_complete_len == __CPROVER_old(g_complete_len) && g_complete_byte == __CPROVER_old(g_complete_byte) &&
+   g_full_ptr == __CPROVER_old(g_full_ptr) && g_last_type == __CPROVER_old(g_last_type)))
+__CPROVER_ensures(MISMATCH ==> (g_in_chain == 0 && g_complete == 0))
+__CPROVER_ensures(ACCEPTED ==> g_last_type == __CPROVER_return_value)
+__CPROVER_ensures((ACCEPTED && __CPROVER_return_value == LDB_TYPE_FULL) ==> (g_in_chain == 0 && g_complete == 1 && g_complete_len == result->size && g_full_ptr == result->data &&
+   (g_j >= result->size || g_complete_byte == RD(result, g_j))))
+__CPROVER_ensures((ACCEPTED && __CPROVER_return_value == LDB_TYPE_FIRST) ==> (g_in_chain == 1 && g_complete == 0 && g_chain_len == result->size &&
+   (g_j >= result->size || g_chain_byte == RD(result, g_j))))
+__CPROVER_ensures((ACCEPTED && (__CPROVER_return_value == LDB_TYPE_MIDDLE || __CPROVER_return_value == LDB_TYPE_LAST) && __CPROVER_old(g_in_chain)) ==>
+   (g_chain_len == __CPROVER_old(g_chain_len) + result->size &&
+    g_chain_byte == ((g_j >= __CPROVER_old(g_chain_len) && g_j - __CPROVER_old(g_chain_len) < result->size) ? RD(result, g_j - __CPROVER_old(g_chain_len)) : __CPROVER_old(g_chain_byte))))
+__CPROVER_ensures((ACCEPTED && __CPROVER_return_value == LDB_TYPE_MIDDLE && __CPROVER_old(g_in_chain)) ==> (g_in_chain == 1 && g_complete == 0))
+__CPROVER_ensures((ACCEPTED && __CPROVER_return_value == LDB_TYPE_LAST && __CPROVER_old(g_in_chain)) ==>
+   (g_in_chain == 0 && g_complete == 1 && g_complete_len == g_chain_len && g_complete_byte == g_chain_byte && g_full_ptr == NULL))
+__CPROVER_ensures((ACCEPTED && (__CPROVER_return_value == LDB_TYPE_MIDDLE || __CPROVER_return_value == LDB_TYPE_LAST) && !__CPROVER_old(g_in_chain)) ==> (g_in_chain == 0 && g_complete == 0))
+__CPROVER_ensures((ACCEPTED && (__CPROVER_return_value < LDB_TYPE_FULL || __CPROVER_return_value > LDB_TYPE_LAST)) ==> (g_in_chain == 0 && g_complete == 0))
 ;
 
 void h_read_physical(void) {
@@ -221,6 +265,7 @@ __CPROVER_assigns(PHYS_ASSIGNS)
 __CPROVER_ensures(LR_RI(lr))
 __CPROVER_ensures((__CPROVER_return_value != RET_EOF && __CPROVER_return_value != RET_BAD) ==> FRAG_OK(lr, result, __CPROVER_return_value))
 __CPROVER_ensures(g_reports <= 1 && g_read_calls <= 1 && g_crc_calls <= 1)
+__CPROVER_ensures(g_file_left + lr->buffer.size <= __CPROVER_old(g_file_left) + __CPROVER_old(lr->buffer.size))
 ;
 
 void h_read_physical_any(void) {
@@ -229,5 +274,46 @@ void h_read_physical_any(void) {
   setup_reader(&lr, nondet_int());
   lr.error = nondet_int();
   read_physical_record(&lr, &result);
+  CANARY();
+}
+
+/* ---------------------------------------------------------- log.read */
+/* Logical records are returned whole or not at all (C04/C15): ret == 1 only
+ * right after the tracker completed a record (FULL, or FIRST MIDDLE* LAST all
+ * accepted by crc, nothing damaged in between), with exactly its length and
+ * (for the arbitrary ghost index g_j) its bytes. */
+
+#define RECORD_IS_TRACKED(record) \
+  (g_complete && (record)->size == g_complete_len && \
+   (g_full_ptr != NULL ? ((record)->data == g_full_ptr) \
+                       : ((record)->data == g_scratch_obj && (g_j >= g_complete_len || g_scratch_byte == g_complete_byte))))
+
+int c_reader_read_record(ldb_reader_t *lr, ldb_slice_t *record, ldb_buffer_t *scratch)
+__CPROVER_requires(__CPROVER_rw_ok(lr, sizeof(*lr)) && __CPROVER_w_ok(record, sizeof(*record)) && __CPROVER_rw_ok(scratch, sizeof(*scratch)))
+__CPROVER_requires(LR_RI(lr) && lr->checksum == 1 && lr->initial_offset == 0 && lr->resyncing == 0 && lr->error == LDB_OK)
+__CPROVER_requires(lr->reporter == NULL || (lr->reporter == &g_reporter))
+__CPROVER_requires(g_in_chain == 0 && g_complete == 0)
+__CPROVER_requires(g_reports == 0 && g_read_calls == 0 && g_read_err == 0 && g_crc_calls == 0)
+__CPROVER_assigns(lr->buffer, lr->eof, lr->end_offset, lr->last_offset, lr->last_end, lr->resyncing, *record, *scratch,
+                  g_read_calls, g_read_err, g_file_left, g_reports, g_rep_bytes, g_rep_status, g_crc_calls, g_crc_match, g_crc_p, g_crc_n,
+                  g_in_chain, g_chain_len, g_chain_byte, g_complete, g_complete_len, g_complete_byte, g_full_ptr, g_scratch_byte, g_last_type)
+__CPROVER_ensures(LR_RI(lr))
+__CPROVER_ensures(__CPROVER_return_value == 0 || __CPROVER_return_value == 1)
+__CPROVER_ensures(__CPROVER_return_value == 1 ==> RECORD_IS_TRACKED(record))
+/* the position just past the returned record is published (used to decide whether a log may be appended to) */
+__CPROVER_ensures(__CPROVER_return_value == 1 ==> (lr->last_end == lr->end_offset - lr->buffer.size && lr->last_offset <= lr->last_end))
+/* 0 means end of file (or a failed read, or the reserved type value 5 under a valid crc) - never "gave up in the middle" */
+__CPROVER_ensures(__CPROVER_return_value == 0 ==> ((lr->eof == 1 && lr->buffer.size == 0) || (g_crc_match && g_last_type == LDB_MAX_RECTYPE + 1)))
+;
+
+void h_read_record(void) {
+  ldb_reader_t lr;
+  ldb_slice_t record;
+  ldb_buffer_t scratch;
+  setup_reader(&lr, 1);
+  lr.initial_offset = 0; lr.resyncing = 0;
+  scratch.data = NULL; scratch.size = 0; scratch.alloc = 0;
+  g_j = nondet_size();
+  ldb_reader_read_record(&lr, &record, &scratch);
   CANARY();
 }
